@@ -199,8 +199,9 @@ Fixpoint lz_fields (fuel : nat) (bs : bytes) : list (tag * value) * bool :=
    change when the repair of the recorded finding lazy-data-retains-cg-after-resolve is committed.
      false: bam::Record::data() lists every field of the raw data block, also the CG:B,I field that
             cigar() resolved the CIGAR from (the eager decoder removes it: decoder/cigar.rs::resolve);
-     true:  when cigar() took the CG branch, Data::iter()/get() skip the CG field
-            (repair prepared as /tmp/C05/fixes/02-lazy-data-retains-cg-after-resolve.diff). ---- *)
+     true:  when cigar() took the CG branch, Data::iter()/get() skip the CG field (the repair
+            proposed in the known-finding entry; if the committed repair has another shape, e.g.
+            strips the field in raw_data(), only [lzp_data_sw]'s [sw] branch has to follow it). ---- *)
 Definition cg_repaired : bool := false.
 
 (* record_ref.rs::cigar() took the CG branch: the stored operations are the kSmN placeholder and
